@@ -11,6 +11,7 @@ SeqSet(s) == {s[i] : i \in 1..Len(s)}
 TraceObj == [n \in DOMAIN File.objs |-> [id |-> File.objs[n].id, uid |-> File.objs[n].uid, flat |-> File.objs[n].flat,
                                         arches |-> SeqSet(File.objs[n].arches), type |-> File.objs[n].type]]
 StrChild(p, i) == p \o "-" \o i
+StrUidKey(u) == u
 Events(t) == Batch[t].events
 Ev == Events(tid)[l]
 TraceInit == /\ tid \in 1..Len(Batch) /\ l = 1 /\ live = TRUE /\ Init
